@@ -62,8 +62,9 @@ func runC02(r *Run) {
 	sc := drawScen(r, scenOpts{
 		kinds: allStackKinds, strategies: []string{"simple", "precise", "lookup", "predicate"},
 		maxClients: scale(6, 8), arrivals: []time.Duration{0, ms, 2 * ms, 3 * ms}, holds: []time.Duration{0, ms, 2 * ms, time.Second},
-		qTimeouts: []time.Duration{ms, 2 * ms, 3 * ms, time.Second}, bTimeouts: []time.Duration{0, ms, time.Hour},
-		deadlines: []time.Duration{2 * ms, 5 * ms, time.Hour}, cancelPct: 30, cancelOnReleasePct: 35, cancelTimes: []time.Duration{0, ms, 2 * ms, 3 * ms},
+		qTimeouts: []time.Duration{ms, 2 * ms, 3 * ms, time.Second, -1}, bTimeouts: []time.Duration{0, ms, time.Hour},
+		sharedCtxPct: 20,
+		deadlines:    []time.Duration{2 * ms, 5 * ms, time.Hour}, cancelPct: 30, cancelOnReleasePct: 35, cancelTimes: []time.Duration{0, ms, 2 * ms, 3 * ms},
 		ctxDeadlinePct: 15, ctxDeadlines: []time.Duration{ms / 2, ms + ms/2, 2*ms + ms/2, 700 * ms}, // caller contexts with their own deadline (some already expired on arrival), off the 1 ms grid
 		backlogs: []int{1, 2, 4}, limits: []int{1, 2, 3}, relTimes: []time.Duration{0, ms, 2 * ms, 3 * ms},
 	})
@@ -128,8 +129,9 @@ func runC12(r *Run) {
 	sc := drawScen(r, scenOpts{
 		kinds: []string{"queue", "queue", "queue", "lifo-ctor", "fifo-ctor", "pool", "fixedpool"}, strategies: []string{"simple", "precise"},
 		maxClients: scale(7, 9), arrivals: []time.Duration{0, 0, ms, 2 * ms}, holds: []time.Duration{0, ms, 2 * ms},
-		qTimeouts: []time.Duration{ms, 2 * ms, 3 * ms, time.Second}, bTimeouts: []time.Duration{time.Second},
-		cancelPct: 25, cancelOnReleasePct: 35, cancelTimes: []time.Duration{ms, 2 * ms, 3 * ms},
+		qTimeouts: []time.Duration{ms, 2 * ms, 3 * ms, time.Second, -1}, bTimeouts: []time.Duration{time.Second}, // -1: no backlog timeout
+		sharedCtxPct: 20,
+		cancelPct:    25, cancelOnReleasePct: 35, cancelTimes: []time.Duration{ms, 2 * ms, 3 * ms},
 		ctxDeadlinePct: 15, ctxDeadlines: []time.Duration{ms / 2, ms + ms/2, 2*ms + ms/2, 700 * ms},
 		backlogs: []int{1, 2, 3, 4, 1, 2, 3, -1, 0}, limits: []int{1, 2}, relTimes: []time.Duration{0, ms, 2 * ms, 3 * ms},
 		queueOnly: true,
@@ -256,8 +258,9 @@ func runC13(r *Run) {
 		kinds: []string{"queue", "queue", "deadline", "deadline", "blocking", "lifo-ctor", "fifo-ctor", "pool"}, strategies: []string{"simple", "precise"},
 		maxClients: 4, arrivals: []time.Duration{0, ms, 2 * ms}, holds: []time.Duration{0, ms},
 		qTimeouts: []time.Duration{1, ms, 2 * ms, time.Hour, 0, -1, -time.Second}, bTimeouts: []time.Duration{0, time.Hour},
-		deadlines: []time.Duration{0, ms, 2 * ms, 5 * time.Second, -ms, DeadlineZeroTime, DeadlineFarFuture},
-		cancelPct: 50, cancelTimes: []time.Duration{0, ms, 2 * ms, 3 * ms},
+		sharedCtxPct: 20,
+		deadlines:    []time.Duration{0, ms, 2 * ms, 5 * time.Second, -ms, DeadlineZeroTime, DeadlineFarFuture},
+		cancelPct:    50, cancelTimes: []time.Duration{0, ms, 2 * ms, 3 * ms},
 		backlogs: []int{10}, limits: []int{1, 2}, relTimes: []time.Duration{ms, 2 * ms, 3 * ms, 2*ms - 1, 2*ms + 1},
 		preHeldAll: !variantC, noReleases: !variantB,
 		// caller contexts with their own deadline, off the 1 ms grid so they never coincide with a timeout
